@@ -9,32 +9,45 @@
 (* A connection is [peer, hdr, src, kind]:                                 *)
 (*   peer  the TCP peer (load balancer) it comes through: p1 | p2          *)
 (*   hdr   PROXY header sent: none | v1 | v2 | invalid | garbage           *)
+(*         | v1unknown | v2local (valid, announcing no address)            *)
 (*   src   the source address announced in the header: ipA | ipA2 (same IP *)
 (*         as ipA, other port) | ipB | ip6                                 *)
 (*   kind  status | login                                                  *)
 (***************************************************************************)
 EXTENDS Integers, Sequences, FiniteSets, TLC
 
+(* A header may be valid and announce NO address (version 1 "PROXY UNKNOWN", version 2 command LOCAL): hdr = v1unknown | v2local.      *)
+(* The statement does not say whom such a connection is attributed to; two readings satisfy it: "peer" -- it is the balancer's own  *)
+(* connection, attributed to the TCP peer and charged to the peer's budget (what the code does) -- and "invalid" -- closed unserved  *)
+(* like a missing header.  Serving it WITHOUT asking the limiter is neither.                                                         *)
+Readings == {"peer", "invalid"}
 \* the IP (without port) behind an address label
 IpOf(l) == CASE l \in {"ipA", "ipA2"} -> "A" [] l = "ipB" -> "B" [] l = "ip6" -> "6" [] l = "p1" -> "P1" [] l = "p2" -> "P2" [] OTHER -> l
-HeaderOk(proxy, hdr) == \/ (hdr = "v1" /\ proxy \in {"v1", "both"})
-                        \/ (hdr = "v2" /\ proxy \in {"v2", "both"})
+HeaderOk(proxy, hdr) == \/ (hdr \in {"v1", "v1unknown"} /\ proxy \in {"v1", "both"})
+                        \/ (hdr \in {"v2", "v2local"} /\ proxy \in {"v2", "both"})
+Addressless(hdr) == hdr \in {"v1unknown", "v2local"}
 \* the address the connection is attributed to: announced source with PROXY protocol on, TCP peer otherwise; "bad" = no valid header
-EffLabel(proxy, c) == IF proxy = "off" THEN c.peer ELSE IF HeaderOk(proxy, c.hdr) THEN c.src ELSE "bad"
+EffLabelR(proxy, c, rd) == IF proxy = "off" THEN c.peer
+                           ELSE IF ~HeaderOk(proxy, c.hdr) THEN "bad"
+                           ELSE IF Addressless(c.hdr) THEN (IF rd = "peer" THEN c.peer ELSE "bad")
+                           ELSE c.src
+EffLabel(proxy, c) == EffLabelR(proxy, c, "peer")
 
 \* admissions so far per IP, after the first n connections of history h
-RECURSIVE UsedAfter(_, _, _, _)
-UsedAfter(proxy, limit, h, n) ==
+RECURSIVE UsedAfterR(_, _, _, _, _)
+UsedAfterR(proxy, limit, h, n, rd) ==
   IF n = 0 THEN [i \in {} |-> 0]
-  ELSE LET u == UsedAfter(proxy, limit, h, n - 1)
-           e == EffLabel(proxy, h[n])
+  ELSE LET u == UsedAfterR(proxy, limit, h, n - 1, rd)
+           e == EffLabelR(proxy, h[n], rd)
            ip == IpOf(e)
            cur == IF ip \in DOMAIN u THEN u[ip] ELSE 0
        IN IF e = "bad" \/ (limit > 0 /\ cur >= limit) THEN u ELSE (ip :> cur + 1) @@ u
+UsedAfter(proxy, limit, h, n) == UsedAfterR(proxy, limit, h, n, "peer")
 \* what must happen to connection n: "serve" | "refused" (over budget) | "badhdr"
-Decision(proxy, limit, h, n) ==
-  LET u == UsedAfter(proxy, limit, h, n - 1)
-      e == EffLabel(proxy, h[n])
+DecisionR(proxy, limit, h, n, rd) ==
+  LET u == UsedAfterR(proxy, limit, h, n - 1, rd)
+      e == EffLabelR(proxy, h[n], rd)
       cur == IF IpOf(e) \in DOMAIN u THEN u[IpOf(e)] ELSE 0
   IN IF e = "bad" THEN "badhdr" ELSE IF limit > 0 /\ cur >= limit THEN "refused" ELSE "serve"
+Decision(proxy, limit, h, n) == DecisionR(proxy, limit, h, n, "peer")
 =============================================================================
